@@ -15,6 +15,11 @@
 //	chains=<code>:<key>/<value>,…;<code>:…   (white box, sorted by code, chain order kept)
 //	freed=<key>/<value>/<has next>           (fields of the node a successful Delete handed to the pool)
 //	fwd= bwd=                                (linked map: entry list walked both ways)
+//
+// When the white-box hook had to be replaced by its black-box stub (mapx.VerifWhiteBox() == false) the
+// white-box fields are replaced by `wb=na`, the direct builtinMap cases print `na`, and — since a cyclic
+// chain can then no longer be seen before it is walked — every call runs under a watchdog: a call that
+// does not return is reported as `hang=1` and the run stops there.
 package main
 
 import (
@@ -26,6 +31,7 @@ import (
 	"sort"
 	"strconv"
 	"strings"
+	"time"
 
 	"github.com/ecodeclub/ekit/mapx"
 	"github.com/ecodeclub/ekit/set"
@@ -253,6 +259,9 @@ func (h *hashBox) values() []string {
 	return out
 }
 func (h *hashBox) dump(b *bookkeeping) string {
+	if !whiteBox {
+		return "wb=na"
+	}
 	cs := h.m.VerifChains()
 	b.track(refsOf(cs))
 	s, cyc, mc := chainsStr(cs, strconv.Itoa)
@@ -314,6 +323,9 @@ func rKV(kv mapx.VerifKV[Key, int]) string {
 	return strconv.Itoa(kv.Key.ID) + "~" + strconv.Itoa(kv.Val)
 }
 func (h *linkedBox) dump(b *bookkeeping) string {
+	if !whiteBox {
+		return "wb=na"
+	}
 	cs, _ := mapx.VerifLinkedChains(h.m)
 	b.track(refsOf(cs))
 	s, cyc, mc := chainsStr(cs, rKV)
@@ -424,6 +436,9 @@ func (h *multiBox[K]) dump(b *bookkeeping) string {
 	if h.hashM == nil {
 		return ""
 	}
+	if !whiteBox {
+		return "wb=na"
+	}
 	cs, _ := mapx.VerifMultiChains(h.hashM)
 	b.track(refsOf(cs))
 	s, cyc, mc := chainsStr(cs, rList)
@@ -501,7 +516,11 @@ func mk(container, kk string, size int, bk *bookkeeping) box {
 		m := mapx.NewMultiBuiltinMap[int, int](size)
 		return &multiBox[int]{m: m, bk: bk, key: func(i int) int { return i }, id: func(k int) int { return k }}
 	case "builtin":
-		return &builtinBox{m: mapx.VerifNewBuiltinMap[int, int](size)}
+		m := mapx.VerifNewBuiltinMap[int, int](size)
+		if !m.Available() {
+			return nil // black-box stub: the unexported wrapper cannot be constructed
+		}
+		return &builtinBox{m: m}
 	case "set":
 		return &setBox{m: set.NewMapSet[int](size)}
 	}
@@ -714,6 +733,24 @@ type stats struct {
 	LenHist   map[string]int `json:"len_hist"`
 }
 
+// whiteBox: the hook really reads the internals (false: the black-box stub is installed)
+var whiteBox = mapx.VerifWhiteBox()
+
+// guard runs f, recovering a panic; black-box it also gives up on a call that does not return.
+func guard(f func()) (p string, hung bool) {
+	if whiteBox {
+		return vlib.Catch(f), false
+	}
+	done := make(chan string, 1)
+	go func() { done <- vlib.Catch(f) }()
+	select {
+	case p = <-done:
+		return p, false
+	case <-time.After(1000 * time.Millisecond):
+		return "", true
+	}
+}
+
 func observe(b box, bk *bookkeeping) (string, int) {
 	wb := b.dump(bk)
 	if bk.cycle {
@@ -737,6 +774,7 @@ func run(ops []string, out *vlib.Out, st *stats) {
 	seen := map[string]struct{}{}
 	header := ""
 	before := ""
+	na := false
 	for _, line := range ops {
 		w := strings.Fields(line)
 		st.Ops[w[0]]++
@@ -748,14 +786,24 @@ func run(ops []string, out *vlib.Out, st *stats) {
 			st.Kinds[header]++
 			bk = &bookkeeping{freedRefs: map[any]bool{}}
 			size, _ := strconv.Atoi(w[3])
+			na = false
 			p := vlib.Catch(func() { b = mk(w[1], w[2], size, bk) })
 			if p != "" {
 				b = nil
 				out.Line("%s => %s", line, p)
 				continue
 			}
+			if b == nil {
+				na = true
+				out.Line("%s => na", line)
+				continue
+			}
 			before, _ = observe(b, bk)
 			out.Line("%s => ok %s", line, before)
+			continue
+		}
+		if na {
+			out.Line("%s => na", line)
 			continue
 		}
 		if b == nil {
@@ -768,7 +816,7 @@ func run(ops []string, out *vlib.Out, st *stats) {
 		}
 		bk.freed = ""
 		var res string
-		p := vlib.Catch(func() {
+		p, hung := guard(func() {
 			switch w[0] {
 			case "put":
 				k, _ := strconv.Atoi(w[1])
@@ -799,12 +847,23 @@ func run(ops []string, out *vlib.Out, st *stats) {
 				panic("op " + w[0])
 			}
 		})
+		if hung {
+			out.Line("%s => hang=1", line)
+			st.Results[w[0]+"/hang"]++
+			break
+		}
 		if p != "" {
 			res = p
 		}
 		var after string
 		var n int
-		if p2 := vlib.Catch(func() { after, n = observe(b, bk) }); p2 != "" {
+		p2, hung2 := guard(func() { after, n = observe(b, bk) })
+		if hung2 {
+			out.Line("%s => %s hang=1", line, res)
+			st.Results[w[0]+"/hang"]++
+			break
+		}
+		if p2 != "" {
 			after = "observe-" + p2
 		}
 		if bk.freed != "" {
